@@ -1,5 +1,5 @@
 import Driver.Common
-import ScionTime.Model.Server
+import ScionTime.Model.ServerFill
 open Driver ScionTime.Time64 ScionTime.Server
 
 /-- ops (times are Int nanoseconds since the Unix epoch; ids are Nat):
@@ -41,18 +41,14 @@ def snap (d : DS) (st : State) (id : Nat) : String :=
 def okT64 (s f : Int) : Bool := 0 ≤ s && s < 4294967296 && 0 ≤ f && f < 4294967296
 
 /-- closed form of the state after `n` first requests of clients `idbase .. idbase+n-1`
-    with receive times `base + i*step` and clock readings `d` later. -/
-def bulkState (n idbase : Nat) (base step d : Int) : State :=
-  let mk (i : Nat) : Nat × Item :=
-    let rxt : Int := base + (i : Int) * step
-    (idbase + i, { buf := [⟨ofTime rxt, ofTime (rxt + d), idbase + i⟩], qval := ofTime rxt, qidx := i })
-  { items := (List.range n).map mk   -- oldest first (the order of an association list is not observable)
-    heap := Array.ofFn (n := n) (fun i => idbase + i.val) }
+    with receive times `base + i*step` and clock readings `d` later: `fillState` of
+    Model/ServerFill (Props/C07 `C07_fill_closed_form`: equal to the replay through
+    `handleRequest` up to the order of the association list, which no operation observes —
+    `C07_order_unobservable`). -/
+def bulkState (n idbase : Nat) (base step d : Int) : State := fillState n idbase base step d
 
 def bulkReplay (n idbase : Nat) (base step d : Int) : State :=
-  (List.range n).foldl (fun (st : State) (i : Nat) =>
-    let rxt : Int := base + (i : Int) * step
-    (handleRequest tssCap tssItemCap st (idbase + i) ⟨zero64, zero64, zero64⟩ rxt (rxt + d)).st) init
+  fillReplay tssCap tssItemCap n idbase base step d
 
 def hashStep (p : Nat) (h v : Nat) : Nat := (h * p + v) % 2147483647
 
